@@ -107,7 +107,7 @@ def run_shard(spec, res):
             v = refcand.View(d)
             res.count('worlds')
             for k in range(spec['queries']):
-                q = queries.gen_ac_query(rng, w)
+                q = queries.gen_ac_query(rng, w, view=v if rng.random() < 0.6 else None)
                 path = queries.to_path('/allocation_candidates',
                                        queries.ac_pairs(q, rng))
                 resp = svc.client.send(Req('GET', path,
